@@ -60,6 +60,12 @@ func applyUse(u use, m *stun.Message, mutate bool) (ok bool, err error) {
 		}
 
 		return derr == nil, nil
+	case "encode":
+		// Encode rebuilds the bytes from the fields the Message holds now (whatever the previous use -
+		// also a failed one - left in them); the twin has been given the same fields by runC08
+		m.Encode()
+
+		return true, nil
 	case "build", "manual":
 		setterBufs, trackSetterBufs = nil, mutate
 		defer func() { trackSetterBufs, setterBufs = false, nil }()
@@ -163,6 +169,11 @@ func runC08(c c08Case) (nontrivial bool, err error) {
 		if readCap > 0 {
 			twin.Raw = make([]byte, 0, readCap)
 		}
+		if u.Kind == "encode" {
+			for _, a := range m.Attributes {
+				twin.Attributes = append(twin.Attributes, stun.RawAttribute{Type: a.Type, Length: a.Length, Value: append([]byte(nil), a.Value...)})
+			}
+		}
 		var ok, tok bool
 		var aerr error
 		perr := pbt.Safely(func() {
@@ -252,6 +263,10 @@ func genUse(rt *rapid.T) use {
 
 		return u
 	case 4:
+		if rapid.Bool().Draw(rt, "encodeUse") {
+			return use{Kind: "encode"}
+		}
+
 		return use{Kind: "build"} // empty build
 	default:
 		u := use{Kind: rapid.SampledFrom([]string{"build", "build", "manual"}).Draw(rt, "bk")}
@@ -274,7 +289,7 @@ func genUse(rt *rapid.T) use {
 
 func TestC08_Rapid(t *testing.T) {
 	rec := evid.For("C08")
-	rec.Note("rule", "rapid-generated histories of 2..8 uses of one Message: Decode / Write / UnmarshalBinary / GobDecode / ReadFrom / CloneTo(into it) of random valid (canonical and non-canonical) or mutated messages of "+
+	rec.Note("rule", "rapid-generated histories of 2..8 uses of one Message: Decode / Write / UnmarshalBinary / GobDecode / ReadFrom / CloneTo(into it) / Encode() from the current fields of random valid (canonical and non-canonical) or mutated messages of "+
 		"40..4000 bytes, and Build(setters) / Reset+WriteHeader+AddTo of random typed, raw, integrity and fingerprint setters; between uses the spare capacity of Raw and of Attributes is filled with poison; "+
 		"after every call all caller-side inputs (data, setter values, CloneTo source) are overwritten. Oracle: after every successful use the message equals (Raw, Length, Type, TransactionID, attributes) a fresh Message "+
 		"with the same Type/TransactionID fields given the same use; success/failure agrees with the twin; earlier MarshalBinary and CloneTo results are unaffected by later changes. "+
